@@ -430,8 +430,9 @@ def h_sync(sym):
     E.FakeEvent.runner = runner
     try:
         raised = None
+        with_stmt = True if sym.bool('with_statement') else False      # `with SyncCrazyflie(...)` = __enter__ / __exit__
         try:
-            w.user(scf.open_link)
+            w.user(scf.__enter__ if with_stmt else scf.open_link)
         except (Hang, Deadlock):
             raise
         except Exception as e:
@@ -440,7 +441,7 @@ def h_sync(sym):
             assert scf.is_link_open()
             sym.goal('opened')
             w.settle()
-            w.user(scf.close_link)
+            w.user((lambda: scf.__exit__(None, None, None)) if with_stmt else scf.close_link)
             assert not scf.is_link_open()
         else:
             assert not scf.is_link_open()
